@@ -794,9 +794,16 @@ def run_bc_thread(res, ast):
                     ok = callee == f"((*{names[2]}).op)" and args == names
                 res.check(ok, "BC-THREAD", key, w, "release-mode noop must be `((*ip).op)(cxt, mem, ip, r0, r1)` with the five parameters unchanged and in order")
             else:
-                txt = ast.src1(OPS, fn["body"], 400).replace(" ", "")
-                ok = (f"temps_ptr({names[0]}).add(0).write({names[3]});" in txt and f"temps_ptr({names[0]}).add(1).write({names[4]});" in txt
-                      and f"(*{names[0]}).context.memory.set_current_ptr({names[1]});" in txt and txt.rstrip("}").endswith(names[2]))
+                import pm
+                env_ = {"__v_cxt": names[0], "__v_mem": names[1], "__v_ip": names[2], "__v_r0": names[3], "__v_r1": names[4]}
+                st_ = fn["body"]["stmts"]
+                spills = ("temps_ptr(__v_cxt).add(0).write(__v_r0)", "temps_ptr(__v_cxt).add(1).write(__v_r1)", "(*__v_cxt).context.memory.set_current_ptr(__v_mem)")
+                got = []
+                for s_ in st_[:-1]:
+                    hit = [k_ for k_, pt in enumerate(spills) if s_["t"] == "ExprStmt" and pm.match_expr(s_["expr"], pt, env_) is not None]
+                    got.append(hit[0] if hit else None)
+                ok = sorted(x for x in got if x is not None) == [0, 1, 2] and None not in got and bool(st_) and st_[-1]["t"] == "ExprStmt" \
+                    and not st_[-1]["semi"] and path_name(strip_paren(st_[-1]["expr"])) == names[2]
                 res.check(ok, "BC-THREAD", key, w, "debug-mode noop must spill r0 -> temps[0], r1 -> temps[1], mem -> memory.set_current_ptr and return ip")
             continue
         if any(n is None or n.startswith("_") for n in names):
@@ -829,7 +836,9 @@ def run_bc_thread(res, ast):
         lim = ast.fn(OPS, "limit")["node"]
         lp = op_params(lim)
         envl = {"__v_cxt": lp[0], "__v_mem": lp[1], "__v_r0": lp[3], "__v_r1": lp[4]}
-        hit = [i_ for i_ in walk_t(pm.inline_helpers(ast, OPS, lim["body"]), "If") if pm.match_stmts(i_["then"]["stmts"],
+        # the branch that does not continue with noop(..) (whichever side of the test it is written on)
+        hit = [b_ for i_ in walk_t(pm.inline_helpers(ast, OPS, lim["body"]), "If") for b_ in walk_t(i_, "Block")
+               if not any(path_name(strip_paren(c_["func"])) == "noop" for c_ in walk_t(b_, "Call")) and pm.match_stmts(b_["stmts"],
                "__rest; temps_ptr(__v_cxt).add(0).write(__v_r0); temps_ptr(__v_cxt).add(1).write(__v_r1); (*__v_cxt).context.memory.set_current_ptr(__v_mem); __rest;", envl)]
         res.check(bool(hit), "BC-THREAD", f"{OPS}|limit|spill", where(OPS, lim, "limit"), "the exhausted path of `limit` must spill r0, r1 and mem before returning to the trampoline")
         eo = ast.fn(OPS, "enter_ops")["node"]
